@@ -408,15 +408,15 @@ PROPS["C17"] = {
                   de("c17_momentum_update_n1_decay0", "update, 1 trader, decay 0 (signal = previous momentum)", covers=C17_COV_U, timeout=900, tiers=("thorough",)),
                   de("c17_momentum_saturated_rising_n2", "saturated demand, rising market, 2 traders: exactly one market + one limit BUY each", covers=["cover.every_trader_acted"], timeout=600),
                   de("c17_momentum_saturated_falling_n2", "saturated demand, falling market, 2 traders: exactly one market + one limit SELL each", covers=["cover.every_trader_acted"], timeout=600),
-                  de("c17_momentum_saturated_falling_n1", "saturated demand, falling market, 1 trader", covers=["cover.every_trader_acted"], timeout=600, tiers=("thorough",)),
+                  de("c17_momentum_saturated_falling_n1", "saturated demand, falling market, 1 trader", covers=["cover.every_trader_acted"], timeout=600),
                   de("c17_momentum_ratio_zero_rising_n2", "order ratio 0 at saturated demand, rising: never a limit order, one market BUY per trader", covers=["cover.every_trader_acted"], timeout=600),
-                  de("c17_momentum_ratio_zero_falling_n1", "order ratio 0 at saturated demand, falling, 1 trader", covers=["cover.every_trader_acted"], timeout=600, tiers=("thorough",)),
+                  de("c17_momentum_ratio_zero_falling_n1", "order ratio 0 at saturated demand, falling, 1 trader", covers=["cover.every_trader_acted"], timeout=600),
                   de("c17_momentum_market_saturated_rising_n2", "multi-asset agent, saturated, rising: one market + one limit BUY per trader on its own asset", covers=["cover.every_trader_acted"], timeout=600),
                   de("c17_momentum_market_saturated_falling_n2", "multi-asset agent, saturated, falling: one market + one limit SELL per trader on its own asset", covers=["cover.every_trader_acted"], timeout=600),
                   de("c17_momentum_ratio_zero_falling_n2", "order ratio 0 at saturated demand, falling, 2 traders: never a limit order, one market SELL per trader", covers=["cover.every_trader_acted"], timeout=600),
                   de("c17_momentum_saturated_ratio_half_rising_n2", "order ratio 1/2, demand/n >= 4 (market probability > 1, limit probability >= 1 only if derived from the UNCAPPED product): one market + one limit BUY per trader", covers=["cover.every_trader_acted"], timeout=600),
                   de("c17_momentum_saturated_ratio_half_falling_n2", "same, falling market: one market + one limit SELL per trader", covers=["cover.every_trader_acted"], timeout=600),
-                  de("c17_momentum_market_saturated_ratio_half_falling_n2", "multi-asset agent, order ratio 1/2, demand/n >= 4, falling", covers=["cover.every_trader_acted"], timeout=600, tiers=("thorough",)),
+                  de("c17_momentum_market_saturated_ratio_half_falling_n2", "multi-asset agent, order ratio 1/2, demand/n >= 4, falling", covers=["cover.every_trader_acted"], timeout=600),
                   de("c17_momentum_market_update_n1_decay1", "multi-asset agent update, 1 trader, decay 1: signal formula stored also when nothing can be traded (signal 0, demand 0), direction, multiplicity, own asset", covers=C17_COV_U + ["cover.signal_cancelled_by_a_reversal"], timeout=900),
                   de("c17_momentum_market_update_n2_decay_half", "multi-asset agent update, 2 traders, decay 1/2", covers=C17_COV_U + ["cover.signal_cancelled_by_a_reversal"], timeout=1500, tiers=("thorough",))],
 }
